@@ -91,11 +91,12 @@ func defaultStyle() *style {
 }
 
 type election[T comparable] struct {
-	votes map[T]int
+	votes      map[T]int
+	candidates []T // In order of first appearance, to make the tally deterministic.
 }
 
 func newElection[T comparable]() election[T] {
-	return election[T]{make(map[T]int)}
+	return election[T]{make(map[T]int), nil}
 }
 
 // vote casts a vote for the style, but only if it’s explicit.
@@ -103,14 +104,19 @@ func (e *election[T]) vote(style styleProp[T]) {
 	if !style.isExplicit {
 		return
 	}
+	if _, ok := e.votes[style.value]; !ok {
+		e.candidates = append(e.candidates, style.value)
+	}
 	e.votes[style.value] += 1
 }
 
-// tallyUp returns the style that’s most voted for.
+// tallyUp returns the style that’s most voted for. In case of a tie,
+// the style that was encountered first takes precedence.
 func (e *election[T]) tallyUp(defaultValue T) T {
 	max := 0
 	result := defaultValue
-	for value, count := range e.votes {
+	for _, value := range e.candidates {
+		count := e.votes[value]
 		if count > max {
 			max = count
 			result = value
